@@ -267,8 +267,20 @@ def c10_templates(src, structured, quick=True, timeout=300):
         elif target is not None:
             expect_pos = T.marks["after_target"]
         else:
-            expect_pos = T.marks["after_paren"] if False else T.marks["paren"] + 1
+            expect_pos = T.marks["paren"] + 1
         placed = e.pos.get(expect_pos, False)
+        lo_pos = hi_pos = expect_pos
+        if structured:
+            # "as the first key-value": anywhere in the blank gap between the bracket (or the target's comma) and the
+            # first existing argument is acceptable
+            lo_pos = (T.marks["target"] + 0 if False else None)
+            if target is not None:
+                lo_pos = T.marks["after_target"] - gaps.get("g4", 1)
+                hi_pos = T.marks["after_target"]
+            else:
+                lo_pos = T.marks["paren"] + 1
+                hi_pos = T.marks["after_paren"]
+            placed = Or(*[e.pos.get(q, False) for q in range(lo_pos, hi_pos + 1)])
         # message starting with a valid token counts as referenced: exclude those instances (C12 handles them)
         if not structured:
             good = And(e.considered, Or(e.has_ref, placed))
@@ -277,7 +289,8 @@ def c10_templates(src, structured, quick=True, timeout=300):
         goal = Not(good)
         out.append(run_query("c10-%s-%d" % ("structured" if structured else "plain", idx), t, cons, goal, bound, timeout,
                              extra={"shape": desc, "structured": structured,
-                                    "expect": {"kind": "entry_at", "pos": expect_pos, "structured": structured, "macros": INFO,
+                                    "expect": {"kind": "entry_at", "pos": expect_pos, "pos_lo": lo_pos, "pos_hi": hi_pos,
+                                               "structured": structured, "macros": INFO,
                                                "entry_kind": "StructuredNew" if structured else "String",
                                                "token7": (src.kv_prefix_format.replace("{}", src.ref_key) + "7" +
                                                           (src.kv_suffix_others if kvs else src.kv_suffix_alone)) if structured else None}}))
